@@ -505,7 +505,16 @@ pub fn c16_long_string() -> impl Strategy<Value = String> {
         }
         cs.into_iter().collect::<String>()
     });
-    prop_oneof![3 => from_alpha, 3 => near, 2 => any::<String>(), 1 => "\\PC{0,6}"]
+    // something valid, a separator, and a tail of mixed-width characters (a whole turn, a comment, a
+    // move list pasted where one action is expected)
+    let tail_char = prop_oneof![
+        4 => prop::sample::select(vec!['a', 'n', '2', ' ', 'p', 'R', 'x', '-']),
+        2 => prop::sample::select(vec!['\u{e9}', '\u{2013}', '\u{2658}', '\u{1f600}', '\u{663}', '\u{a0}', '\u{3000}']),
+        1 => any::<char>(),
+    ];
+    let prefixed = ("([a-h][1-8][nesw]|p|[rcdhme]|[a-h][1-8]|[nesw])", prop::sample::select(vec![" ", "  ", "\t", "\n", ",", ";", "", "\u{a0}"]), prop::collection::vec(tail_char, 0..48))
+        .prop_map(|(pre, sep, tail)| format!("{}{}{}", pre, sep, tail.into_iter().collect::<String>()));
+    prop_oneof![3 => from_alpha, 3 => near, 2 => any::<String>(), 1 => "\\PC{0,6}", 3 => prefixed]
 }
 
 // =====================================================================================
